@@ -57,6 +57,11 @@ CHECKS = {
         "note": "Trusted: TLC, monomial control alphabet, harness construction of superoperators. Known finding (mixed int/float time specifications for one step) is accepted only when the real states equal the deviated specification's prediction exactly.",
         "technique": "TLA+ reference semantics + TLC enumeration of control schedules; spec->code replay through four APIs; deviation as named spec constant",
     },
+    "C07": {
+        "text": "Correlations.tla gives the declarative meaning of every time specification (int, float, slice with negative steps, list in any order, interval in either direction) and of the n-dimensional result (NaN exactly at non-time-ordered tuples) plus a model of the scheduling/filtering algorithm; TLC checks algorithm = declaration for all tuples of specifications over the grid (and that the tail-index deviation violates it) and emits per entry the time tuple it must belong to; PTContract.tla supplies the exact multi-time correlation of the joint system+ancilla evolution with left/right operator insertions. Real compute_correlations (ordered, anti) and compute_correlations_nt (3 operators, mixed left/right) are compared entry by entry incl. NaN mask and returned axes; the caller's dt is checked on axes and dynamics.",
+        "note": "Trusted: TLC, Gaussian-prime diagonal operators (the check verifies that values identify the time tuple), monomial ancilla process tensors with memory. Empty selections are out of scope. Bath-occupation closed forms (bath_dynamics.py) are numerical and not covered.",
+        "technique": "two TLA+ specs (time-spec algebra, exact correlation semantics) + TLC enumeration; spec->code replay entry by entry",
+    },
 }
 for e in ENGINES:
     e["serves_properties"] = sorted(CHECKS)
